@@ -35,6 +35,9 @@ def real_opts(a, b, fa, fb):
     return o
 
 
+REPLAY = ("TraceCacheLayer", TRACE_CFG)
+
+
 def signature(events, at):
     ev = json.loads(events[at - 1]) if 0 < at <= len(events) else {}
     if ev.get("op") != "search":
